@@ -403,6 +403,46 @@ def run(chk, ctx):
     chk.ob('C14.W', 'run-time writers of the catalogue', not writes,
            'no function stores into INDEX_MAPPING or a class table'
            if not writes else '; '.join(writes[:3]))
+    # the catalogue accessors (attributes(), amqp_type()) answer from the
+    # class alone: they neither write nor consult module-level state
+    from .c16 import shared_effects
+    acc_bad = []
+    nacc = 0
+    for m_ in spec.methods():
+        ci_ = prog.classes.get('pamqp.commands.' + m_.py_name)
+        if ci_ is None:
+            continue
+        for mname in ('attributes', 'amqp_type'):
+            mf = prog.find_method(ci_, mname)
+            if mf is None:
+                continue
+            it_ = ctx.interp()
+            st_ = ctx.new_state()
+            ref_ = ctx.symbolic_instance(it_, st_, ci_)
+            recv = ci_ if mf.kind == 'classmethod' else ref_
+            argv = [recv] if mf.kind != 'staticmethod' else []
+            if mname == 'amqp_type':
+                sl = ctx.slots_of(ci_)
+                if not sl:
+                    continue
+                argv.append(sl[0])
+            outs_ = it_.run_function(mf, argv, {}, st_)
+            nacc += 1
+            for e_ in shared_effects(it_):
+                acc_bad.append('%s.%s: %s %s at %s' % (
+                    ci_.short, mname, e_.kind, str(e_.detail)[:40], e_.site))
+            for o_ in outs_:
+                for a_ in o_.state.kn.atoms:
+                    if isinstance(a_, T.Sym) and T.mentions(
+                            a_, lambda t: t.op == 'global'):
+                        acc_bad.append('%s.%s depends on run-time module '
+                                       'state: %s' % (ci_.short, mname,
+                                                      T.show(a_)[:60]))
+    seen_acc = sorted(set(x.split(': ', 1)[1] for x in acc_bad))
+    chk.ob('C14.W', 'catalogue accessors', not acc_bad,
+           '%d abstract runs of attributes() / amqp_type(): no module-level '
+           'state written or consulted' % nacc if not acc_bad else
+           '; '.join(seen_acc[:3]))
     # ... and no instance shadows a catalogue attribute of its class
     chk.rule('C14.I', 'catalogue attributes (frame_id, index, name, '
              'synchronous, valid_responses, __slots__, flags, _<argument> '
